@@ -319,6 +319,12 @@ pub fn run(tier: Tier) -> i32 {
     let mut extra: Vec<(String, String)> = vec![
         ("unknown-device".into(), ".device ATmega9999\nnop\n".into()),
         ("unknown-device".into(), ".device NoSuchPart\n".into()),
+        // something that is not a device name at all names no device in the table
+        ("unknown-device".into(), ".device 8515\nnop\n".into()),
+        ("unknown-device".into(), ".device \"ATmega8\"\nnop\n".into()),
+        ("unknown-device".into(), ".device ATmega8 + 1\nnop\n".into()),
+        ("unknown-device".into(), ".device r16\nnop\n".into()),
+        ("unknown-device".into(), ".device low(ATmega8)\nnop\n".into()),
     ];
     for (a, b) in [("ATmega48", "ATmega48"), ("ATmega48", "ATmega8"), ("ATtiny11", "ATmega2560"), ("ATmega2560", "ATtiny11")] {
         extra.push(("second-device".into(), format!(".device {}\n.device {}\nnop\n", a, b)));
